@@ -3,6 +3,9 @@
   CFilter  debug.filter_traceback on generated line lists
   CChain   chains of awaiting tasks with a raise at the bottom and handlers at chosen levels; the
            traceback that reaches the synchronous caller; format_error on it
+  CObserve the failed outermost task of such a chain observed several times: by the driver itself,
+           by chains of reader tasks that await it / ask for its value synchronously, with or without
+           a handler; the traceback each observer catches
   CStack   debug.format_asynq_stack() inside the deepest task of a creator chain
   CRepr    str()/repr()/.dump() of every object kind, driven into a lifecycle state through the
            public API ("cell" cases) or put into an arbitrary attribute state (generated trees)
@@ -79,6 +82,9 @@ def frame_of_name(name):
     m = re.match(r"^hlp_(\d+)$", name)
     if m:
         return {"FHelper": [int(m.group(1))]}
+    m = re.match(r"^rdr_(\d+)_(\d+)$", name)
+    if m:
+        return {"FReader": [int(m.group(1)), int(m.group(2))]}
     return {"FOther": [S(name)]}
 
 
@@ -316,6 +322,144 @@ def run_chain(ms, bottom, meta):
     return {"out": {"RChain": [{"Some": [[frame_of_name(n) for n in hide_aware]]}]},
             "obs": {"raised": True, "exc_type": type(err).__name__, "user_frames": user, "n_raw_frames": len(raw),
                     "has_task": hasattr(err, "_task"), "formats": light}}
+
+
+# ------------------------------------------------------------------------------------ (b') observers
+def make_readers(k, rs, fut, via_call, seen):
+    """Reader tasks rdr_k_0 .. rdr_k_(r-1) of observer k, outermost first: the innermost one looks at
+    the failed future, every other one at the reader below it -- by `yield` (HAwait) or synchronously
+    (HSync); a level that `catches` has a try/except around that and records what it caught."""
+    r = len(rs)
+    fns = [None] * r
+
+    def mk(j):
+        h, catches = rs[j][""]
+        catches = catches == "true"
+        inner = j == r - 1
+        early = (k + j) % 2 == 0          # synchronous look before / after the first yield of the reader
+
+        def target_async():
+            return fut if inner else fns[j + 1].asynq()
+
+        # (the synchronous look is written out in the body: a helper would add a frame of its own)
+        if h == "HAwait" and not catches:
+            def body():
+                yield target_async()
+        elif h == "HAwait":
+            def body():
+                try:
+                    yield target_async()
+                except Boom as e:
+                    seen[k] = (e, sys.exc_info()[2])
+                    return "handled"
+        elif not catches:
+            def body():
+                if not early:
+                    yield None
+                (fut() if via_call else fut.value()) if inner else fns[j + 1]()
+                if early:
+                    yield None
+        else:
+            def body():
+                if not early:
+                    yield None
+                try:
+                    (fut() if via_call else fut.value()) if inner else fns[j + 1]()
+                except Boom as e:
+                    seen[k] = (e, sys.exc_info()[2])
+                    return "handled"
+                if early:
+                    yield None
+        return asynq_dec()(named(body, "rdr_%d_%d" % (k, j)))
+
+    for j in range(r):
+        fns[j] = mk(j)
+    return fns
+
+
+def run_observe(ms, bottom, drv, observers, meta):
+    fns = make_chain(ms, bottom, meta)
+    fut = fns[0].asynq()                   # the one task every observer looks at
+    sync_via = meta.get("sync_via") or ["value"]
+    seen = {}
+
+    def via_call(k):
+        return sync_via[k % len(sync_via)] == "call"
+
+    if meta.get("precompute"):
+        fut.error()                        # computes the task without raising its error
+    readers = [make_readers(k, rs, fut, via_call(k), seen) for k, rs in enumerate(observers)]
+
+    if drv == "HSync":
+        def observe_one(k):
+            try:
+                if readers[k]:
+                    readers[k][0]()
+                elif via_call(k):
+                    fut()
+                else:
+                    fut.value()
+            except Boom as e:
+                seen[k] = (e, sys.exc_info()[2])
+
+        if meta.get("fresh_caller", True):
+            # a new invocation of the calling function for every observation
+            named(observe_one, "caller_frame")
+            for k in range(len(observers)):
+                observe_one(k)
+        else:
+            # one invocation of the calling function looks again and again
+            def caller_frame():
+                for k in range(len(observers)):
+                    try:
+                        if readers[k]:
+                            readers[k][0]()
+                        elif via_call(k):
+                            fut()
+                        else:
+                            fut.value()
+                    except Boom as e:
+                        seen[k] = (e, sys.exc_info()[2])
+            named(caller_frame, "caller_frame")()
+    else:
+        def caller_frame():
+            for k in range(len(observers)):
+                try:
+                    if readers[k]:
+                        yield readers[k][0].asynq()
+                    else:
+                        yield fut
+                except Boom as e:
+                    seen[k] = (e, sys.exc_info()[2])
+        asynq_dec()(named(caller_frame, "caller_frame"))()
+
+    out, per = [], []
+    old = (debug._use_syntax_highlighting, debug._should_filter_traceback)
+    try:
+        debug.enable_traceback_syntax_highlight(False)
+        debug.enable_filter_traceback(True)
+        for k in range(len(observers)):
+            if k not in seen:
+                out.append("None")
+                per.append({"raised": False})
+                continue
+            err, tb = seen[k]
+            hide_aware = [f[2] for f in debug.extract_tb(tb)]
+            raw = traceback.extract_tb(tb)
+            user = [f.name for f in raw if os.path.abspath(f.filename).rstrip("c") == THIS]
+            fm = []
+            if k < 4:
+                for f in (try_format("explicit-tb,hl=0,filter=1", lambda: debug.format_error(err, tb=tb)),
+                          try_format("stored-tb,hl=0,filter=1", lambda: debug.format_error(err))):
+                    txt = f.pop("text")
+                    f["has_text"] = bool(txt)
+                    fm.append(f)
+            out.append({"Some": [[frame_of_name(n) for n in hide_aware]]})
+            per.append({"raised": True, "exc_type": type(err).__name__, "user_frames": user, "formats": fm})
+    finally:
+        debug.enable_traceback_syntax_highlight(old[0])
+        debug.enable_filter_traceback(old[1])
+    return {"out": {"RObserve": [out]}, "obs": {"observers": per}}
 
 
 # ------------------------------------------------------------------------------------ (c) stack
@@ -1167,6 +1311,8 @@ def run_case(c):
         return run_filter(a[0])
     if k == "CChain":
         return run_chain(a[0], a[1], meta)
+    if k == "CObserve":
+        return run_observe(a[0], a[1], a[2], a[3], meta)
     if k == "CStack":
         return run_stack(a[0], a[1], meta)
     if k == "CRepr":
